@@ -2,15 +2,15 @@
 # usage: tools/verify_seed.sh <Cxx> <worktree> : confirms, in the scratch worktree, that the demo
 # fails with the change and passes without it, and that the touched packages' tests pass.
 set -u
-id=$1; wt=$2; out=/tmp/seed-out/$id
+id=$1; wt=$2; out=${SEED_OUT:-/tmp/seed-out}/$id
 export GOFLAGS=-mod=mod GOPROXY=off
 cd $wt || exit 2
 pkg=$(python3 -c "import json;print(json.load(open('$out/meta.json'))['demo_pkg'])")
 git checkout -q -- .
 cp $out/zz_seeded_demo_test.go $wt/$pkg/ 2>/dev/null
-echo "--- without the change:"; go test -count=1 -run 'Seeded|seeded|Demo' ./$pkg/ 2>&1 | tail -3
+echo "--- without the change:"; go test -count=1 -tags verif -run 'Seeded|seeded|Demo' ./$pkg/ 2>&1 | tail -3
 git apply $out/patch.diff || { echo "patch does not apply"; exit 2; }
-echo "--- with the change:"; go test -count=1 -run 'Seeded|seeded|Demo' ./$pkg/ 2>&1 | tail -4
+echo "--- with the change:"; go test -count=1 -tags verif -run 'Seeded|seeded|Demo' ./$pkg/ 2>&1 | tail -4
 echo "--- build + existing tests of touched packages (+ root):"
 go build ./... && go build -tags verif ./... && echo build ok
 mv $wt/$pkg/zz_seeded_demo_test.go /tmp/zz_demo_$id.go
